@@ -27,6 +27,11 @@ func Args() (tier, replay string) {
 			if i+1 < len(a) {
 				replay = a[i+1]
 				i++
+				// a replay re-runs one recorded case: its (tiny) evidence must not replace the
+				// evidence of the last full run
+				if evid.EvidenceDir == "" {
+					evid.EvidenceDir = filepath.Join(evid.Root, ".work", "replay-evidence")
+				}
 			}
 		}
 	}
